@@ -24,11 +24,20 @@ pub const REQUIRED: &[&str] = &[
     "LpDist",
     "KernelMethod",
     "Kernel",
+    "shape_single_sample",
+    "shape_fewer_samples_than_features",
+    "shape_samples_eq_features",
+    "shape_samples_eq_features_plus_1",
+    "wide_fitted_whitener",
 ];
 
 pub fn check(c: &Case, obs: &mut Obs) {
     obs.class_if(c.f32, "f32");
     obs.class_if(!c.f32, "f64");
+    let c = &crate::util::shape_variant(c, obs);
+    if c.x.is_empty() {
+        return obs.skip("no_rows");
+    }
     if c.f32 {
         impl_f32::run(c, obs)
     } else {
@@ -359,6 +368,7 @@ macro_rules! adapters {
                     _ => return obs.class("no_fitted_instance"),
                 };
                 obs.class(T);
+                obs.class_if(model.transformation_matrix().nrows() != model.transformation_matrix().ncols(), "wide_fitted_whitener");
                 obs.nontrivial();
                 let q = queries(c);
                 let want = observe(|| model.transform(q.clone()));
